@@ -1,5 +1,6 @@
 """C15 - f_zip / f_sequence / f_traverse keep positions and propagate the first failure."""
 import itertools
+import zlib
 from concurrent.futures import Future
 
 from mc.harness import harness, oracle
@@ -7,6 +8,13 @@ from mc.kit import E2, ProbeFuture, snapshot, brief
 from more_executors._impl import futures as F
 
 OUTS = ("v", "exc", "cancelled", "never", "running", "cexc")
+
+
+class FalsyX(E2):
+    """a failure whose exception object is falsy"""
+
+    def __len__(self):
+        return 0
 
 
 def ref_zip(kind, outs, order, dupmap=None):
@@ -26,6 +34,8 @@ def ref_zip(kind, outs, order, dupmap=None):
             return ("cancelled", None), k
         if o == "exc":
             return ("err", "E2(x%d)" % i), k
+        if o == "fexc":
+            return ("err", "FalsyX(x%d)" % i), k
         if o == "cexc":
             # an input that FAILED with a CancelledError instance (it was never cancelled)
             return ("err", "CancelledError(c%d)" % i), k
@@ -47,6 +57,8 @@ def finish_input(mc, f, i, o):
     elif f.set_running_or_notify_cancel():
         if o == "exc":
             f.set_exception(E2("x%d" % i))
+        elif o == "fexc":
+            f.set_exception(FalsyX("x%d" % i))
         elif o == "cexc":
             from concurrent.futures import CancelledError
             f.set_exception(CancelledError("c%d" % i))
@@ -59,12 +71,24 @@ def build(mc, kind, ins, dupmap=None, trav_log=None):
     args = list(ins) if not dupmap else [ins[j] for j in dupmap]
     if kind == "zip":
         return F.f_zip(*args)
+    # the inputs are documented as "a list or other iterable": rotate the kind of iterable
+    form = zlib.crc32(repr(sorted(mc.p.items(), key=lambda kv: kv[0])).encode()) % 4
     if kind == "sequence":
-        return F.f_sequence(args)
+        return F.f_sequence(_iterable(args, form))
     def fn(k):
         trav_log.append(k)
         return args[k]
-    return F.f_traverse(fn, list(range(len(args))))
+    return F.f_traverse(fn, _iterable(list(range(len(args))), form))
+
+
+def _iterable(items, form):
+    if form == 0:
+        return list(items)
+    if form == 1:
+        return tuple(items)
+    if form == 2:
+        return iter(list(items))            # one-shot iterator
+    return (x for x in list(items))         # generator
 
 
 def _hparams(ns, kinds=("zip", "sequence", "traverse")):
@@ -161,6 +185,10 @@ def hcheck(x):
 
 harness("c15.hist", prop="C15", traced=(), horizon=20, params=_hparams((0, 1, 2, 3)))(hbody)
 oracle("c15.hist")(hcheck)
+_falsy = [dict(kind=_k, outs=_o, dup=None) for _k in ("zip", "sequence", "traverse") for _n in (1, 2, 3)
+          for _o in itertools.product(("v", "fexc", "cancelled"), repeat=_n) if "fexc" in _o]
+harness("c15.falsy", prop="C15", traced=(), horizon=20, params=_falsy)(hbody)
+oracle("c15.falsy")(hcheck)
 harness("c15.hist4", prop="C15", traced=(), horizon=20, params=_hparams((4,), ("zip", "traverse")))(hbody)
 oracle("c15.hist4")(hcheck)
 _dups = []
@@ -308,8 +336,8 @@ harness("c15.conc", prop="C15", traced=("futures.zip", "futures.base"), horizon=
 oracle("c15.conc")(ccheck)
 
 PLAN = {
-    "quick": [dict(harness="c15.hist", bound=0), dict(harness="c15.dups", bound=0), dict(harness="c15.large", bound=0),
+    "quick": [dict(harness="c15.hist", bound=0), dict(harness="c15.falsy", bound=0), dict(harness="c15.dups", bound=0), dict(harness="c15.large", bound=0),
               dict(harness="c15.travfail", bound=0), dict(harness="c15.conc", bound=2)],
-    "thorough": [dict(harness="c15.hist", bound=0), dict(harness="c15.hist4", bound=0), dict(harness="c15.dups", bound=0),
+    "thorough": [dict(harness="c15.hist", bound=0), dict(harness="c15.falsy", bound=0), dict(harness="c15.hist4", bound=0), dict(harness="c15.dups", bound=0),
                  dict(harness="c15.large", bound=0), dict(harness="c15.travfail", bound=0), dict(harness="c15.conc", bound=3)],
 }
